@@ -67,7 +67,7 @@ def run(prop, tier):
             hist.append({"op": "readdf", "d": "b:good@frame"})
             extra_jobs.append({"hist": hist, "abstract": [{"op": "dataonly", "fam": fam}], "scenario": "dataonly", "fam": fam, "prof": "-"})
     rc = life.run_property(prop, tier, p["scen"], p["per"], COMMON_ASSUMPTIONS + p["extra"], p["rule"], extra_jobs=extra_jobs)
-    if prop in ("C02", "C04"):
+    if prop in ("C01", "C02", "C03", "C04"):
         # design-level I-layer (information in the evidence; a drift of the I-layer is a machinery failure, never a verdict)
         import json, os
         from . import lifeimpl
